@@ -214,6 +214,22 @@ func c15tReadLog(wal WAL) (n int, ends []int64, err error) {
 }
 
 // c15tRun returns (violation key, what, record length (0 = unknown), whether the first script had finished, inconclusive).
+// c15tGroupRange: every index the reopened group counts as a rolled file must be a file that exists under the rolled-file name
+// (the end-height search walks that range; anything else in the directory — a backup of a repaired head, say — is not a WAL file).
+func c15tGroupRange(w *vos.World, wal WAL) string {
+	bw, ok := wal.(*BaseWAL)
+	if !ok {
+		return ""
+	}
+	g := bw.group
+	// this part never rotates the head (no size limit is reached, the group's ticker is off): whatever the reopened group counts as
+	// a rolled file is something else in the directory, and the end-height search will walk the index range up to it
+	if g.MinIndex() != 0 || g.MaxIndex() != 0 {
+		return fmt.Sprintf("the group spans indexes %d..%d although the head was never rotated; directory: %v", g.MinIndex(), g.MaxIndex(), w.Files())
+	}
+	return ""
+}
+
 var c15tLastHeight int64
 
 func c15tRun(c c15tCase) (key, what string, recLen int, finished bool, inconcl string) {
@@ -280,6 +296,11 @@ func c15tRun(c c15tCase) (key, what string, recLen int, finished bool, inconcl s
 	if err != nil {
 		n2.kill()
 		return "node:start-up-fails-after-torn-record", err.Error(), recLen, finished, ""
+	}
+	if msg := c15tGroupRange(nw, n2.cs.wal); msg != "" {
+		n2.kill()
+		return "libs/autofile/group.go:readGroupInfo:reopened-group-counts-rolled-files-that-were-never-produced", fmt.Sprintf("after %d events of %q, %d of %d bytes of a further record and the restart (repair included): %s",
+			c.Events, c.Scenario, c.Tail, recLen, msg), recLen, finished, ""
 	}
 	if after := c15Proj(n2.cs); after != before {
 		n2.kill()
